@@ -52,7 +52,7 @@ finally:
     os.remove('/tmp/_seed_%s.patch' % name)
 assert sh('git diff -- src').stdout == diff, 're-applying the change failed'
 t0 = time.time()
-suite = sh(f'flock /tmp/aioslsk-suite.lock {PY} -m pytest -q -p no:cacheprovider --timeout=900 tests 2>&1 | tail -4', timeout=1800)
+suite = sh(f'unshare -n sh -c "ip link set lo up; {PY} -m pytest -q -p no:cacheprovider --timeout=900 tests 2>&1 | tail -4"', timeout=1800)
 suite_ok = ' passed' in suite.stdout and ' failed' not in suite.stdout and ' error' not in suite.stdout
 res = {'demo_fails_with_change': not with_ok, 'demo_passes_without_change': without_ok,
        'suite_passes_with_change': suite_ok}
@@ -71,7 +71,7 @@ meta = {
         'demo_with_change': 'FAILS', 'demo_without_change': 'PASSES',
         'suite_with_change': suite.stdout.strip().splitlines()[-1],
         'how': f'cd <scratch worktree> && PYTHONPATH=<wt>/src {PY} -m pytest -q {demo} (with the change / with `git checkout -- src`); '
-               f'flock /tmp/aioslsk-suite.lock {PY} -m pytest -q --timeout=900 tests',
+               f'unshare -n sh -c "ip link set lo up; {PY} -m pytest -q --timeout=900 tests" (own network namespace: the e2e tests bind fixed ports)',
         'base_commit': sh('git rev-parse HEAD').stdout.strip(),
     },
     'detected_by': None,
